@@ -22,6 +22,8 @@ def _jobs(tier):
         jobs.append(dict(sub="cplx_api", count=n, fix=dict(k=k), split=split))
         jobs.append(dict(sub="drivers", count=n, fix=dict(k=k), split=split))
         jobs.append(dict(sub="simple", count=n // 2, fix=dict(k=k), split=split))
+        if k <= 12:
+            jobs.append(dict(sub="precomp_buffers", count=max(200, n // 8), fix=dict(k=k)))
     jobs.append(dict(sub="leaf", count=120000 * mult, split=4 * (1 if tier == "quick" else 4)))
     return jobs
 
@@ -33,6 +35,7 @@ def _required():
             "entry:simple", "entry_pwr:1/4", "entry_pwr:inner_block", "layout:reim", "layout:cplx", "dir:fft", "dir:ifft"]
     req += ["simple:%s_%s_simple" % (lay, d) for lay in ("reim", "cplx") for d in ("fft", "ifft")]
     req += ["fam:" + f for f in ("impulse", "constant", "resonant", "dynrange", "random")]
+    req += ["entry:precomp_buffer", "pbuf:reim", "pbuf:cplx"] + ["pbuf:k%d" % k for k in range(0, 13)]
     # every implementation at every size at which the library's dispatcher can select it
     for k in range(0, 17):
         for i in _IMPLS:
@@ -47,7 +50,7 @@ PLAN = dict(
     src="props/c06.cpp", flavour="rel",
     rule="cases = (m=2^k for every k in 0..16 [own stratum each; 16/32 and 2048/4096 are the algorithm switches], layout in "
          "{reim, cplx}, direction in {fft, ifft}, entry point in {public reim_/cplx_(i)fft on a table created under CPU cfg "
-         "full|generic, the _ref and _avx2_fma drivers called directly on either table, the *_simple API, the leaf kernels "
+         "full|generic, the _ref and _avx2_fma drivers called directly on either table, the *_simple API, a transform run inside the table's own built-in buffers (num_buffers 1..3: must equal the transform in a caller array and leave table and other buffers intact), the leaf kernels "
          "reim_(i)fft{2,4,8,16}_ref / {4,8,16}_avx_fma / cplx_(i)fft16_{ref,avx_fma} on tables from the library's own fill "
          "routines (16-point kernels also with every inner-block entry power (1+4r)/(4*2^e) the drivers use)}, input family in "
          "{unit impulse, constant, conjugate powers of a generated evaluation point (all energy in one output), dynamic range "
